@@ -3,6 +3,7 @@ package rules
 import (
 	"go/token"
 	"go/types"
+	"strings"
 
 	"golang.org/x/tools/go/ssa"
 
@@ -20,6 +21,23 @@ import (
 type sliceWeb struct {
 	fns    []*ssa.Function
 	parent map[ssa.Value]ssa.Value
+
+	// deep webs (newSliceWebDeep) also follow a slice through the fields of a struct that is local to the
+	// function, through methods of that struct used as method values, and through the parameters and results
+	// of unexported helpers that have a single call site.
+	deep      bool
+	inFns     map[*ssa.Function]bool
+	site      map[*ssa.Function]*ssa.Call // helper -> its only call
+	linked    map[ssa.Value]bool          // calls / extracts / parameters that were connected across a call
+	fieldRep  map[fieldCellKey]ssa.Value  // (local struct, field) -> the FieldAddr that stands for the cell
+	baseAlloc map[ssa.Value]*ssa.Alloc    // cache: base of a FieldAddr -> the local struct it denotes
+	stores    map[ssa.Value][]*ssa.Store  // field cell -> stores into it
+	tracked   map[*ssa.Alloc]bool         // local structs that do not escape the web's functions
+}
+
+type fieldCellKey struct {
+	obj   *ssa.Alloc
+	field int
 }
 
 func (w *sliceWeb) find(v ssa.Value) ssa.Value {
@@ -52,6 +70,208 @@ func isSliceT(t types.Type) bool {
 // newSliceWeb builds the webs of fn and its literals.
 func newSliceWeb(fn *ssa.Function) *sliceWeb {
 	w := &sliceWeb{fns: ssau.WithAnon(fn), parent: map[ssa.Value]ssa.Value{}}
+	w.build()
+	return w
+}
+
+// boundTarget: the method a bound-method wrapper (`x.m` used as a value) calls.
+func boundTarget(wr *ssa.Function) *ssa.Function {
+	if wr == nil || wr.Synthetic == "" || !strings.HasSuffix(wr.Name(), "$bound") {
+		return nil
+	}
+	var out *ssa.Function
+	ssau.Instrs(wr, func(in ssa.Instruction) {
+		if ci, ok := in.(ssa.CallInstruction); ok {
+			if sc := ci.Common().StaticCallee(); sc != nil {
+				out = sc
+			}
+		}
+	})
+	return out
+}
+
+// newSliceWebDeep builds the webs of fn, its literals, the methods it uses as method values and the unexported
+// helpers of its package that are called from exactly one place (transitively): a queue that is kept in a field
+// of a local struct, appended to by a method of that struct, or handed to a helper and taken back from its
+// result is still one web.
+func newSliceWebDeep(p *prog.Program, fn *ssa.Function) *sliceWeb {
+	w := &sliceWeb{parent: map[ssa.Value]ssa.Value{}, deep: true,
+		inFns: map[*ssa.Function]bool{}, site: map[*ssa.Function]*ssa.Call{}, linked: map[ssa.Value]bool{},
+		fieldRep: map[fieldCellKey]ssa.Value{}, baseAlloc: map[ssa.Value]*ssa.Alloc{}, stores: map[ssa.Value][]*ssa.Store{},
+		tracked: map[*ssa.Alloc]bool{}}
+	pk := prog.PkgOf(fn)
+	pkgFns := p.FuncsIn(pk)
+	add := func(f *ssa.Function) {
+		for _, g := range ssau.WithAnon(f) {
+			if !w.inFns[g] {
+				w.inFns[g] = true
+				w.fns = append(w.fns, g)
+			}
+		}
+	}
+	usable := func(h *ssa.Function) bool {
+		return h != nil && h.Blocks != nil && h.Parent() == nil && prog.PkgOf(h) == pk && !w.inFns[h] &&
+			(h.Object() == nil || !h.Object().Exported())
+	}
+	add(fn)
+	for i := 0; i < len(w.fns) && len(w.fns) < 64; i++ {
+		ssau.Instrs(w.fns[i], func(in ssa.Instruction) {
+			switch x := in.(type) {
+			case *ssa.MakeClosure:
+				if wr, ok := x.Fn.(*ssa.Function); ok {
+					if m := boundTarget(wr); usable(m) {
+						add(m)
+					}
+				}
+			case *ssa.Call:
+				h := x.Common().StaticCallee()
+				if !usable(h) {
+					return
+				}
+				if sites := callSitesOf(h, pkgFns); len(sites) == 1 && sites[0] == ssa.CallInstruction(x) {
+					w.site[h] = x
+					add(h)
+				}
+			}
+		})
+	}
+	w.build()
+	return w
+}
+
+// fieldCell: the variable cell a field address denotes, if it is a field of a struct allocated in the web's
+// functions that does not leave them; nil otherwise.
+func (w *sliceWeb) fieldCell(fa *ssa.FieldAddr) ssa.Value {
+	if !w.deep {
+		return nil
+	}
+	obj, done := w.baseAlloc[fa.X]
+	if !done {
+		obj = nil
+		if a, ok := fa.X.(*ssa.Alloc); ok {
+			obj = a
+		} else {
+			ds := deepDefs(fa.X, w.fns)
+			if len(ds) == 1 {
+				obj, _ = ds[0].(*ssa.Alloc)
+			}
+		}
+		if obj != nil && !w.isTracked(obj) {
+			obj = nil
+		}
+		w.baseAlloc[fa.X] = obj
+	}
+	if obj == nil {
+		return nil
+	}
+	k := fieldCellKey{obj, fa.Field}
+	if rep, ok := w.fieldRep[k]; ok {
+		return rep
+	}
+	w.fieldRep[k] = fa
+	return fa
+}
+
+// isTracked: every use of the local struct (pointer) is one this web follows: a field access, a method value or a
+// call within the web's functions, or a local variable that is only used that way.
+func (w *sliceWeb) isTracked(obj *ssa.Alloc) bool {
+	if t, ok := w.tracked[obj]; ok {
+		return t
+	}
+	if _, isStruct := obj.Type().Underlying().(*types.Pointer).Elem().Underlying().(*types.Struct); !isStruct {
+		w.tracked[obj] = false
+		return false
+	}
+	w.tracked[obj] = true // (cycles)
+	seen := map[ssa.Value]bool{}
+	var okUse func(v ssa.Value, depth int) bool
+	okUse = func(v ssa.Value, depth int) bool {
+		if seen[v] {
+			return true
+		}
+		seen[v] = true
+		if depth > 6 {
+			return false
+		}
+		for _, r := range ssau.Referrers(v) {
+			switch x := r.(type) {
+			case *ssa.FieldAddr, *ssa.DebugRef:
+			case *ssa.Phi:
+				if !okUse(x, depth+1) {
+					return false
+				}
+			case *ssa.MakeClosure:
+				f, _ := x.Fn.(*ssa.Function)
+				if m := boundTarget(f); m != nil {
+					if !w.inFns[m] || len(m.Params) == 0 || !okUse(m.Params[0], depth+1) {
+						return false
+					}
+					break
+				}
+				if f == nil || !w.inFns[f] {
+					return false
+				}
+				for i, b := range x.Bindings {
+					if b == v && i < len(f.FreeVars) && !okUse(f.FreeVars[i], depth+1) {
+						return false
+					}
+				}
+			case *ssa.Call:
+				h := x.Common().StaticCallee()
+				if h == nil || !w.inFns[h] || x.Common().IsInvoke() {
+					return false
+				}
+				for i, a := range x.Common().Args {
+					if a == v && (i >= len(h.Params) || !okUse(h.Params[i], depth+1)) {
+						return false
+					}
+				}
+			case *ssa.Store:
+				// kept in a local variable (the cell of `q := &queue{}` when a literal captures q)
+				cell, isCell := x.Addr.(*ssa.Alloc)
+				if x.Val != v || !isCell {
+					if x.Addr == v {
+						break // a store through the pointer itself (whole-struct assignment): not followed, not an escape
+					}
+					return false
+				}
+				if !okUse(cell, depth+1) {
+					return false
+				}
+			case *ssa.UnOp:
+				if x.Op != token.MUL {
+					return false
+				}
+				// load of the variable that holds the pointer: fine; a copy of the struct itself is not followed
+				if _, isPtr := x.Type().Underlying().(*types.Pointer); !isPtr {
+					return false
+				}
+				if !okUse(x, depth+1) {
+					return false
+				}
+			default:
+				return false
+			}
+		}
+		return true
+	}
+	t := okUse(obj, 0)
+	w.tracked[obj] = t
+	return t
+}
+
+// addrCell: the variable cell an address denotes for this web (nil if it is not one).
+func (w *sliceWeb) addrCell(addr ssa.Value) ssa.Value {
+	switch x := addr.(type) {
+	case *ssa.Alloc, *ssa.FreeVar:
+		return w.cellRoot(addr)
+	case *ssa.FieldAddr:
+		return w.fieldCell(x)
+	}
+	return nil
+}
+
+func (w *sliceWeb) build() {
 	for _, f := range w.fns {
 		ssau.Instrs(f, func(in ssa.Instruction) {
 			switch x := in.(type) {
@@ -75,28 +295,87 @@ func newSliceWeb(fn *ssa.Function) *sliceWeb {
 				if b, ok := x.Common().Value.(*ssa.Builtin); ok && b.Name() == "append" {
 					w.union(x, x.Common().Args[0])
 				}
+				if h := x.Common().StaticCallee(); w.deep && h != nil && w.site[h] == x {
+					w.linkCall(x, h)
+				}
 			case *ssa.Store:
 				if isSliceT(x.Val.Type()) {
-					switch x.Addr.(type) {
-					case *ssa.Alloc, *ssa.FreeVar:
-						w.union(w.cellRoot(x.Addr), x.Val)
+					if cell := w.addrCell(x.Addr); cell != nil {
+						w.union(cell, x.Val)
+						if _, isF := x.Addr.(*ssa.FieldAddr); isF {
+							w.stores[cell] = append(w.stores[cell], x)
+						}
 					}
 				}
 			case *ssa.UnOp:
 				if x.Op == token.MUL && isSliceT(x.Type()) {
-					switch x.X.(type) {
-					case *ssa.Alloc, *ssa.FreeVar:
-						w.union(w.cellRoot(x.X), x)
+					if cell := w.addrCell(x.X); cell != nil {
+						w.union(cell, x)
 					}
 				}
 			}
 		})
 	}
-	return w
+}
+
+// linkCall connects the slice operands and results of the only call of helper h with h's parameters and returned
+// values.
+func (w *sliceWeb) linkCall(cl *ssa.Call, h *ssa.Function) {
+	args := cl.Common().Args
+	for i, par := range h.Params {
+		if i < len(args) && isSliceT(par.Type()) && !ssau.IsNilConst(args[i]) {
+			w.union(par, args[i])
+			w.linked[par] = true
+		}
+	}
+	res := h.Signature.Results()
+	for _, b := range h.Blocks {
+		ret, ok := b.Instrs[len(b.Instrs)-1].(*ssa.Return)
+		if !ok {
+			continue
+		}
+		if res.Len() == 1 && isSliceT(res.At(0).Type()) {
+			w.linked[cl] = true
+			if !ssau.IsNilConst(ret.Results[0]) {
+				w.union(cl, ret.Results[0])
+			}
+			continue
+		}
+		for _, r := range ssau.Referrers(cl) {
+			if ex, isEx := r.(*ssa.Extract); isEx && ex.Index < len(ret.Results) && isSliceT(ex.Type()) {
+				w.linked[ex] = true
+				if !ssau.IsNilConst(ret.Results[ex.Index]) {
+					w.union(ex, ret.Results[ex.Index])
+				}
+			}
+		}
+	}
+}
+
+// liftTo maps an instruction to the instruction of function frame through which it is reached: itself if it is
+// in frame, else the only call (in frame) of the helper it sits in, over several levels; nil if there is none.
+func (w *sliceWeb) liftTo(frame *ssa.Function, in ssa.Instruction) ssa.Instruction {
+	for depth := 0; depth < 4 && in != nil; depth++ {
+		if in.Parent() == frame {
+			return in
+		}
+		cl := w.site[in.Parent()]
+		if cl == nil {
+			return nil
+		}
+		in = cl
+	}
+	return nil
 }
 
 // cellRoot maps a free variable to the variable cell it is bound to.
 func (w *sliceWeb) cellRoot(cell ssa.Value) ssa.Value {
+	if fa, isFA := cell.(*ssa.FieldAddr); isFA {
+		if rep := w.fieldCell(fa); rep != nil {
+			return rep
+		}
+		return cell
+	}
 	fv, ok := cell.(*ssa.FreeVar)
 	if !ok {
 		return cell
@@ -185,20 +464,48 @@ func emittedSource(p *prog.Program, v ssa.Value, b *ssa.BasicBlock) msgSource {
 	doEmitted := p.Func("core", "Walked", "DoEmitted")
 	if par, ok := v.(*ssa.Parameter); ok {
 		lit := par.Parent()
-		if lit.Parent() == nil || len(lit.Params) == 0 || lit.Params[0] != par {
+		// a function literal (the message is its first parameter), or a method used as a method value (the
+		// message is the first parameter after the receiver)
+		isMethod := lit.Parent() == nil && lit.Signature.Recv() != nil
+		mi := 0
+		if isMethod {
+			mi = 1
+		}
+		if (lit.Parent() == nil && !isMethod) || len(lit.Params) != mi+1 || lit.Params[mi] != par {
 			return msgSource{}
 		}
 		var site ssa.CallInstruction
-		for _, f := range ssau.WithAnon(topOf(lit)) {
+		var where []*ssa.Function
+		if isMethod {
+			where = p.FuncsIn(prog.PkgOf(lit))
+		} else {
+			where = ssau.WithAnon(topOf(lit))
+		}
+		nsites := 0
+		for _, f := range where {
 			ssau.Instrs(f, func(in ssa.Instruction) {
+				if mc, ok := in.(*ssa.MakeClosure); ok && isMethod && boundTarget(mc.Fn.(*ssa.Function)) == lit {
+					nsites++ // every use of the method value must be the hand-over to DoEmitted
+				}
 				if ci, ok := in.(ssa.CallInstruction); ok && ci.Common().StaticCallee() == doEmitted {
 					for _, a := range ci.Common().Args {
-						if mc, ok := a.(*ssa.MakeClosure); ok && mc.Fn == ssa.Value(lit) {
+						mc, ok := a.(*ssa.MakeClosure)
+						if !ok {
+							continue
+						}
+						if mc.Fn == ssa.Value(lit) || (isMethod && boundTarget(mc.Fn.(*ssa.Function)) == lit) {
 							site = ci
+							nsites--
 						}
 					}
 				}
+				if ci, ok := in.(ssa.CallInstruction); ok && isMethod && ci.Common().StaticCallee() == lit {
+					nsites++ // also called directly: the parameter is not only an emitted message
+				}
 			})
+		}
+		if isMethod && nsites != 0 {
+			return msgSource{}
 		}
 		if site == nil {
 			return msgSource{}
@@ -266,7 +573,10 @@ type batchInfo struct {
 	anchor *ssa.BasicBlock // block (in the caller) that starts the gathering
 }
 
-func batchOf(p *prog.Program, v ssa.Value, depth int) batchInfo {
+func batchOf(p *prog.Program, v ssa.Value, depth int) batchInfo { return batchOfIn(p, nil, v, depth) }
+
+// batchOfIn: batchOf within a given (deep) web when v belongs to one of its functions.
+func batchOfIn(p *prog.Program, web *sliceWeb, v ssa.Value, depth int) batchInfo {
 	if depth > 2 {
 		return batchInfo{why: "helper nesting too deep"}
 	}
@@ -286,7 +596,7 @@ func batchOf(p *prog.Program, v ssa.Value, depth int) batchInfo {
 					continue
 				}
 				n++
-				bi = batchOf(p, ret.Results[0], depth+1)
+				bi = batchOfIn(p, nil, ret.Results[0], depth+1)
 				if !bi.ok {
 					return bi
 				}
@@ -321,7 +631,10 @@ func batchOf(p *prog.Program, v ssa.Value, depth int) batchInfo {
 	if !isIn {
 		return batchInfo{why: "not a local slice"}
 	}
-	w := newSliceWeb(topOf(in.Parent()))
+	w := web
+	if w == nil || !w.inFns[in.Parent()] {
+		w = newSliceWebDeep(p, topOf(in.Parent()))
+	}
 	apps := w.appendsInto(v)
 	if len(apps) == 0 {
 		return batchInfo{why: "nothing is appended to it"}
@@ -343,7 +656,7 @@ func batchOf(p *prog.Program, v ssa.Value, depth int) batchInfo {
 			return batchInfo{why: "each message is appended more than once"}
 		}
 	}
-	origins := sliceOrigins(v, map[ssa.Value]bool{})
+	origins := w.originsOf(v, map[ssa.Value]bool{})
 	if len(origins) == 0 {
 		return batchInfo{why: "cannot find where it is created"}
 	}
@@ -359,6 +672,63 @@ func batchOf(p *prog.Program, v ssa.Value, depth int) batchInfo {
 		}
 	}
 	return batchInfo{ok: true, origin: origins, walked: src.walked, anchor: src.anchor}
+}
+
+// originsOf: sliceOrigins that also looks through the field cells and helper calls of a deep web.
+func (w *sliceWeb) originsOf(v ssa.Value, seen map[ssa.Value]bool) []ssa.Value {
+	if !w.deep {
+		return sliceOrigins(v, seen)
+	}
+	return sliceOriginsIn(w, v, seen)
+}
+
+// deepOrigins: the values a value of a deep web is made from, when it is a load of a field cell, the result of a
+// linked helper call or a linked parameter; ok=false otherwise.
+func (w *sliceWeb) deepOrigins(v ssa.Value) (from []ssa.Value, ok bool) {
+	if w == nil || !w.deep {
+		return nil, false
+	}
+	switch x := v.(type) {
+	case *ssa.UnOp:
+		if fa, isFA := x.X.(*ssa.FieldAddr); isFA && x.Op == token.MUL {
+			if cell := w.fieldCell(fa); cell != nil {
+				for _, st := range w.stores[cell] {
+					from = append(from, st.Val)
+				}
+				return from, true
+			}
+		}
+	case *ssa.Call:
+		if h := x.Common().StaticCallee(); h != nil && w.site[h] == x && w.linked[x] {
+			for _, b := range h.Blocks {
+				if ret, isRet := b.Instrs[len(b.Instrs)-1].(*ssa.Return); isRet && !ssau.IsNilConst(ret.Results[0]) {
+					from = append(from, ret.Results[0])
+				}
+			}
+			return from, true
+		}
+	case *ssa.Extract:
+		if cl, isCl := x.Tuple.(*ssa.Call); isCl && w.linked[x] {
+			if h := cl.Common().StaticCallee(); h != nil && w.site[h] == cl {
+				for _, b := range h.Blocks {
+					if ret, isRet := b.Instrs[len(b.Instrs)-1].(*ssa.Return); isRet && x.Index < len(ret.Results) && !ssau.IsNilConst(ret.Results[x.Index]) {
+						from = append(from, ret.Results[x.Index])
+					}
+				}
+				return from, true
+			}
+		}
+	case *ssa.Parameter:
+		if cl := w.site[x.Parent()]; cl != nil && w.linked[x] {
+			for i, par := range x.Parent().Params {
+				if par == x && i < len(cl.Common().Args) {
+					from = append(from, cl.Common().Args[i])
+				}
+			}
+			return from, true
+		}
+	}
+	return nil, false
 }
 
 // members lists the values of the web of v.
